@@ -801,3 +801,14 @@ def _install_more():
 
 
 _install_more()
+
+
+@summary(r"^std::option::Option::<.*>::filter::<.*>$", "Option::filter (real closure executed on a reference to the payload)")
+def _opt_filter(eng, st, args, dty, callee, m):
+    o, f = args
+    if 1 not in o.pay:
+        return none()
+    ref = eng.alloc(st, o.pay[1][0], "T")
+    s2, r = eng.call_closure(st, f, [ref])
+    _adopt(st, s2)
+    return VEnum(OPTION, z3.If(z3.And(is_variant(o, 1), r), bv(1, 8), bv(0, 8)), {0: (), 1: o.pay[1]})
